@@ -229,6 +229,7 @@ def check_c06(tier):
         # by TLC above on every transition) maps History.tla onto has Mirror / DefKeyed as INDUCTIVE invariants (Apalache)
         import apalache
         cov["apalache_inductive_invariant"] = apalache.mirror_inductive()
+        cov["tlaps_inductive_invariant"] = apalache.mirror_tlaps()
     return V.finish(
         coverage_extra=cov,
         rule="TLC visits every history of full-text versions over {conftest, helper, test} (6/5/5 versions incl. "
